@@ -39,35 +39,55 @@ type verifFollower struct {
 	// positions the follower really stored at some time (initial content, successful ReplicaLog calls)
 	everHeld  map[int64]bool
 	recreated bool
+	// generation of the connection to the follower node: the follower going offline closes and evicts
+	// the pooled connection (coordinator/storage onNodeFailure); clients and streams made on an
+	// older connection fail from then on, a client created afterwards gets a new connection
+	gen int
 }
 
 type verifCli struct {
 	protoReplicaV1.ReplicaServiceClient
-	f *verifFollower
+	f   *verifFollower
+	gen int
 }
 
+var errVerifConnClosing = errors.New("grpc: the client connection is closing")
+
 func (c *verifCli) GetReplicaAckIndex(context.Context, *protoReplicaV1.GetReplicaAckIndexRequest, ...grpc.CallOption) (*protoReplicaV1.GetReplicaAckIndexResponse, error) {
+	if c.gen != c.f.gen {
+		return nil, errVerifConnClosing
+	}
 	return &protoReplicaV1.GetReplicaAckIndexResponse{AckIndex: c.f.p.ReplicaAckIndex()}, nil
 }
 func (c *verifCli) Reset(_ context.Context, in *protoReplicaV1.ResetIndexRequest, _ ...grpc.CallOption) (*protoReplicaV1.ResetIndexResponse, error) {
+	if c.gen != c.f.gen {
+		return nil, errVerifConnClosing
+	}
 	c.f.resets = append(c.f.resets, in.AppendIndex)
 	c.f.p.ResetReplicaIndex(in.AppendIndex)
 	return &protoReplicaV1.ResetIndexResponse{}, nil
 }
 func (c *verifCli) Replica(context.Context, ...grpc.CallOption) (protoReplicaV1.ReplicaService_ReplicaClient, error) {
 	// the follower-side handler binds its partition once per stream (app/storage/rpc ReplicaHandler.Replica)
-	return &verifStream{f: c.f, p: c.f.p}, nil
+	if c.gen != c.f.gen {
+		return nil, errVerifConnClosing
+	}
+	return &verifStream{f: c.f, p: c.f.p, gen: c.gen}, nil
 }
 
 type verifStream struct {
 	protoReplicaV1.ReplicaService_ReplicaClient
-	f *verifFollower
-	p *partition // the partition this stream was bound to when it was created
+	f   *verifFollower
+	p   *partition // the partition this stream was bound to when it was created
+	gen int
 }
 
 var errVerifFault = errors.New("stream fault")
 
 func (s *verifStream) Send(req *protoReplicaV1.ReplicaRequest) error {
+	if s.gen != s.f.gen {
+		return errVerifConnClosing
+	}
 	if s.f.streamFault == 1 {
 		return errVerifFault
 	}
@@ -91,6 +111,9 @@ func (s *verifStream) Send(req *protoReplicaV1.ReplicaRequest) error {
 	return nil
 }
 func (s *verifStream) Recv() (*protoReplicaV1.ReplicaResponse, error) {
+	if s.gen != s.f.gen {
+		return nil, errVerifConnClosing
+	}
 	if s.f.streamFault == 2 {
 		return nil, errVerifFault
 	}
@@ -104,7 +127,8 @@ type verifFct struct {
 }
 
 func (f *verifFct) CreateReplicaServiceClient(models.Node) (protoReplicaV1.ReplicaServiceClient, error) {
-	return f.cli, nil
+	// a client on the node's current connection
+	return &verifCli{f: f.cli.f, gen: f.cli.f.gen}, nil
 }
 
 func verifDir(name string) string {
@@ -218,8 +242,14 @@ func verifC08Handshake() {
 	// the leader appends a new message and replicates whatever is pending, with an arbitrary fault on the way
 	_ = p.leader.Queue().Put([]byte{'n', 'e', 'w'})
 	ackBase := int64(-1)
-	p.follower.streamFault = verifChoose("streamFault", 5)
+	p.follower.streamFault = verifChoose("streamFault", 6)
 	verifAssert(p.rr.Connect(), "connect")
+	if p.follower.streamFault == 5 {
+		// the follower node went offline and came back: the connection the open stream (and the
+		// client it was made from) uses is closed; whatever is created from now on works
+		p.follower.gen++
+		p.follower.streamFault = 0
+	}
 	if p.follower.streamFault == 4 {
 		// destroyed under the open stream, re-created empty
 		p.follower.p.closed.Store(true)
@@ -228,7 +258,7 @@ func verifC08Handshake() {
 			panic(err)
 		}
 		p.follower.p = &partition{log: fresh, closed: atomic.NewBool(false), statistics: metrics.NewStorageWriteAheadLogStatistics("db", "1")}
-		p.follower.recreated = true // (everHeld keeps its history: "stored at some time")
+		p.follower.recreated = true      // (everHeld keeps its history: "stored at some time")
 		ackBase = p.cg.AcknowledgedSeq() // acknowledged before the follower lost everything
 	}
 	for round := 0; round < rounds; round++ {
